@@ -354,7 +354,10 @@ def step (sk : Skeleton) (s : State) : Act → Option State
     if s.crashed = false ∧ (s.calls c).pc = .written ∧ sk.stubSelectsRes = true then
       match s.res c with
       | r :: rest =>
-        if decodes sk (s.calls c).numOut r = true ∧ fail = true then
+        if sk.panicSitesCanonical = false ∧ r.err = .ctxErr then
+          -- (a stub that panics on an OUTCOME — here the call's own context error — and not only on failures of the link)
+          some { s with res := upd s.res c rest, calls := upd s.calls c { s.calls c with pc := .panicking eCallCtx } }
+        else if decodes sk (s.calls c).numOut r = true ∧ fail = true then
           some { s with res := upd s.res c rest, calls := upd s.calls c { s.calls c with pc := .panicking eDecode } }
         else
           some { s with res := upd s.res c rest, calls := upd s.calls c { s.calls c with pc := .decoded, outcome := .ok r } }
